@@ -437,11 +437,13 @@ func (c *CBCObj) Invoke(ex *Exec, fr *frame, method string, args []Value) Value 
 		if len(src) == 0 {
 			return nil
 		}
-		if c.used {
-			ex.unsupported("second CryptBlocks call on one CBC mode object")
-		}
-		c.used = true
 		out := ex.cbcTerm(c.enc, c.key, c.iv, src)
+		// CBC chaining: a further call continues from the last ciphertext block
+		if c.enc {
+			c.iv = append([]*Term{}, out[len(out)-16:]...)
+		} else {
+			c.iv = append([]*Term{}, src[len(src)-16:]...)
+		}
 		for i, t := range out {
 			dst.data[i] = t
 		}
